@@ -159,6 +159,12 @@ def evaluate(mod, scns):
         direct = []
         if hasattr(mod, "direct_specs"):
             direct = mod.direct_specs(r) or []
+        spin = [ob for ob in r["obs"] if isinstance(ob, dict) and ob.get("spin")]
+        if spin:
+            # asyncio front end: the event loop never became idle - some job is invoked again and again
+            # at one instant (no due time, budget or containment statement survives that)
+            direct = direct + [{"info": {"what": "event loop never idle: a job keeps running at one instant", "detail": spin[0].get("exc"),
+                                         "starts": [e for e in spin[0].get("events", []) if e[2] == "S"][:6]}}]
         rec = {
             "scn": r["scn"],
             "diff": runlib.explain(r) if r["diff"] is not None else None,
